@@ -328,6 +328,64 @@ def grid_run(case, ctx):
     judge(spec, vals, ctx)
 
 
+# ----------------------------------------------------------------------------- stage lazy
+# A class named by a STRING inside a trait is resolved at the first validation - through whichever object happens to
+# validate first.  If that object has its own copy of the trait (a listener was attached to it), every OTHER object of
+# the class must still decide like the Python validator afterwards.
+LAZY_SPECS = {
+    "Either(Instance('Foo'),Int)": lambda: T.Either(T.Instance("Foo", module="vf.lattice"), T.Int),
+    "Either(Int,Instance('Foo'))": lambda: T.Either(T.Int, T.Instance("Foo", module="vf.lattice")),
+    "Instance('Foo')": lambda: T.Instance("Foo", module="vf.lattice"),
+    "List(Instance('Foo'))": lambda: T.List(T.Instance("Foo", module="vf.lattice")),
+    "Trait(None,Instance('Foo'),Str)": lambda: T.Trait(None, T.Instance("Foo", module="vf.lattice"), T.Str),
+    "Tuple(Instance('Foo'),Int)": lambda: T.Tuple(T.Instance("Foo", module="vf.lattice"), T.Int),
+}
+
+
+def lazy_gen(tier, shard, nshards):
+    i = 0
+    for name in sorted(LAZY_SPECS):
+        for first in ("listener-object", "plain-object", "class-trait"):
+            for first_value in ("foo", "int", "bad"):
+                if i % nshards == shard:
+                    yield {"spec": name, "first": first, "first_value": first_value}
+                i += 1
+
+
+def lazy_run(case, ctx):
+    ctx.nontrivial()
+    cls = type("LazyOwner", (T.HasTraits,), {"x": LAZY_SPECS[case["spec"]]()})
+    listener_obj, plain_obj = cls(), cls()
+    listener_obj.on_trait_change(lambda: None, "x")        # gives this object its own copy of the trait
+    foo = L.Foo()
+    wrap = (lambda v: [v]) if case["spec"].startswith("List") else (lambda v: (v, 1)) if case["spec"].startswith("Tuple") else (lambda v: v)
+    first_v = wrap({"foo": foo, "int": 5, "bad": "zzz" if "Str" not in case["spec"] else 2.5}[case["first_value"]])
+    # the first validation (it resolves the class) happens through ...
+    try:
+        if case["first"] == "listener-object":
+            listener_obj.x = first_v
+        elif case["first"] == "plain-object":
+            plain_obj.x = first_v
+        else:
+            cls.__class_traits__["x"].validate(plain_obj, "x", first_v)
+    except T.TraitError:
+        pass
+    # ... afterwards EVERY object accepts what the Python validator accepts
+    others = [listener_obj, plain_obj, cls()]
+    late = cls()
+    late.on_trait_change(lambda: None, "x")
+    others.append(late)
+    for v, label in ((wrap(foo), "a Foo"), (wrap(L.Bar()), "a Bar (subclass)"), (wrap(L.Other()), "an Other")):
+        for idx, o in enumerate(others):
+            ct = o.trait("x")
+            c = outcome(lambda: ct.validate(o, "x", v))
+            p = outcome(lambda: ct.handler.validate(o, "x", v))
+            a = outcome(lambda: setattr(o, "x", v))
+            if (c[0] == "ok") != (p[0] == "ok") or (a[0] == "ok") != (p[0] == "ok"):
+                ctx.fail("differential/accept/lazy-class", "%r, first validation through %s with %s: object #%d then validates %s: compiled %r, "
+                         "assignment %r, python %r" % (case["spec"], case["first"], case["first_value"], idx, label, c[0], a[0], p[0]))
+
+
 # ----------------------------------------------------------------------------- stage compounds
 LEAVES = [["Int"], ["Float"], ["Complex"], ["Str"], ["Bytes"], ["Bool"], ["CInt"], ["CFloat"], ["CStr"], ["CBool"], ["None"],
           ["Range", 0.0, 1.0, False, False], ["Range", 0.0, 1.0, True, True], ["Range", 0, 3, False, True],
@@ -442,6 +500,10 @@ def fuzz_replay(case, ctx):
             ctx.fail(r[1], r[2])
 
 
+def _lazy_stage():
+    return {"name": "lazy", "kind": "enum", "gen": lazy_gen, "run": lazy_run, "shards": 4, "exhaustive": True}
+
+
 def stages(tier):
     extra = []
     if tier == "thorough":
@@ -452,4 +514,5 @@ def stages(tier):
         {"name": "grid", "kind": "enum", "batch": True, "gen": grid_gen, "run": grid_run, "shards": 16, "exhaustive": True},
         {"name": "compounds", "kind": "hyp", "strategy": compounds_strategy, "run": compounds_run,
          "examples": {"quick": 2500, "thorough": 250000}, "shards": 16},
+        _lazy_stage(),
     ]
